@@ -151,14 +151,14 @@ def handle : List String → String
       -- the oracle is the macro language WITH `\ifx` (`texProgramC`); aux 4 = the same without conditionals (`texProgram`, the
       -- evaluator of the program-level theorems): where it is defined the two must agree
       let sp := tvisStr (texProgramC fuel toks)
-      s!"{visStr (runProgram (3 * fuel + 10) toks)}\t{sp}\t{visStr (runProgramRepaired (3 * fuel + 10) toks)}\t{tvisStr (texRun fragOk fuel ⟨toks, primTable, []⟩)}\t{sp}\t{tvisStr (texProgram fuel toks)}"
+      s!"{visStr (runProgram (3 * fuel + 10) toks)}\t{sp}\t{visStr (runProgramRepaired (3 * fuel + 10) toks)}\t{tvisStr (texRun fragOk fuel ⟨toks, condTable, []⟩)}\t{sp}\t{tvisStr (texProgram fuel toks)}"
     | _, _ => "bad-op"
   | "progt" :: fuelW :: ws =>
     -- the same on an explicit token list
     match fuelW.toNat?, toks? ws with
     | some fuel, some toks =>
       let sp := tvisStr (texProgramC fuel toks)
-      s!"{visStr (runProgram (3 * fuel + 10) toks)}\t{sp}\t{visStr (runProgramRepaired (3 * fuel + 10) toks)}\t{tvisStr (texRun fragOk fuel ⟨toks, primTable, []⟩)}\t{sp}\t{tvisStr (texProgram fuel toks)}"
+      s!"{visStr (runProgram (3 * fuel + 10) toks)}\t{sp}\t{visStr (runProgramRepaired (3 * fuel + 10) toks)}\t{tvisStr (texRun fragOk fuel ⟨toks, condTable, []⟩)}\t{sp}\t{tvisStr (texProgram fuel toks)}"
     | _, _ => "bad-op"
   | _ => "bad-op"
 
